@@ -171,6 +171,38 @@ fn run(e: &'static Engine, workers: usize, poisoned: bool, parts: &'static [(cha
     e.note(&out);
 }
 
+/// the main thread holds the write lock when the window opens, so every participant queues up (a writer in the global
+/// lock, a first reader in the global lock while holding the reader mutex, later readers in the reader mutex); it cancels
+/// one of them and unlocks at once: the hand-off races with the cancellation
+fn run_held(e: &'static Engine, workers: usize, parts: &'static [(char, &'static str)], cancel: usize) {
+    rt_init(workers);
+    let l: &'static RwLock<u32> = Box::leak(Box::new(RwLock::new(0)));
+    let g = l.write().unwrap();
+    e.begin();
+    let mut hs = vec![];
+    for (k, o) in parts.iter() {
+        hs.push(spawn_part(e, *k, move || ops(e, l, o)));
+    }
+    // everybody is queued
+    e.quiesce();
+    cancel_part(&hs[cancel]);
+    drop(g);
+    let mut out = String::new();
+    for (i, h) in hs.into_iter().enumerate() {
+        match join_part(e, h) {
+            Ok(()) => out.push_str("ok "),
+            Err(true) if i == cancel => out.push_str("cancel "),
+            Err(true) => e.fail("cancel_unasked", "a participant ended with Cancel but was not cancelled"),
+            Err(false) => e.fail("unexpected_panic", &format!("a participant panicked: {:?}", e.panics().last())),
+        }
+    }
+    if BAD.load(Ordering::SeqCst) {
+        e.fail("writer_exclusive", "a writer was inside the lock together with a reader or another writer");
+    }
+    probe(e, l);
+    e.note(&out);
+}
+
 enum G {
     R(RwLockReadGuard<'static, u32>),
     W(RwLockWriteGuard<'static, u32>),
@@ -395,6 +427,12 @@ fn read_drop_cancelled(e: &'static Engine, workers: usize) {
 
 pub fn build(quick: bool) -> Vec<Scenario> {
     let mut v = vec![];
+    for w in [1usize, 2] {
+        for parts in [&[('C', "W")][..], &[('C', "R")], &[('C', "W"), ('C', "W")], &[('C', "R"), ('C', "R")], &[('C', "W"), ('T', "R")]] {
+            let parts: &'static [(char, &'static str)] = parts;
+            v.push(Scenario::new("C12", "rwlock_held", format!("rwlock.held.{}.w{}.cancel0", parts_name(parts), w), Arc::new(move |e| run_held(e, w, parts, 0))).tier(quick));
+        }
+    }
     for w in [1usize, 2] {
         v.push(Scenario::new("C12", "rwlock_read_drop_cancelled", format!("rwlock.read_guard_drop_cancelled.reader_mutex_held.w{}", w), Arc::new(move |e| read_drop_cancelled(e, w))).bound(2));
     }
